@@ -124,7 +124,7 @@ def bool_(x):
 def int_(x):
     try:
         return int(x)
-    except (ValueError, TypeError):
+    except (ValueError, TypeError, OverflowError):
         return None
 
 
